@@ -23,5 +23,15 @@ example : ∀ i, i < nInputsOf [0, 1, 0] → i ∈ [0, 1, 0] := by decide
 example : ((resampled (idw 2) (.list [2, 1]) (.list [1/2, 0])).toOption.bind fun w1 =>
       (resampled w1 (.list [3, 2]) (.list [1, 1/2])).toOption.map fun w2 => w2.p2w [1, 1])
     = some (mulAdd [1, 1] [6, 2] [5/2, 1/2]) := by decide +kernel
+-- a reordering of a reordering: orders that do not commute; the fold is inner[outer[i]]
+def w3 : LLWcs Rat :=
+  { pixDim := 3, worldDim := 3, p2w := fun q => [q.getD 0 0, q.getD 1 0 * 2, q.getD 2 0 + 1], w2p := fun v => v,
+    corr := (List.range 3).map fun i => (List.range 3).map fun j => i == j, shape := some [4, 5, 6] }
+example : WellFormed w3 := by intro q; rfl
+example : selectIdx [1, 0, 2] [2, 0, 1] = [0, 2, 1] ∧ selectIdx [2, 0, 1] [1, 0, 2] = [2, 1, 0] := by decide
+example : ((reordered w3 ["a", "b", "c"] [2, 0, 1] [1, 2, 0]).toOption.bind fun r1 =>
+      (reordered r1.wcs r1.worldTypes [1, 0, 2] [0, 2, 1]).toOption.map fun r2 =>
+        (r2.wcs.p2w (selectIdx (selectIdx [1, 0, 2] [2, 0, 1]) [10, 20, 30]), r2.worldTypes))
+    = some (selectIdx (selectIdx [0, 2, 1] [1, 2, 0]) (w3.p2w [10, 20, 30]), ["b", "a", "c"]) := by decide +kernel
 
 end Ndcube.C14.Witness
